@@ -10,27 +10,27 @@ import (
 
 func TestCSSDecodeExamples(t *testing.T) {
 	cases := map[string]string{
-		`\26 B`:       "&B", // the spec's own example: "\26 B" is "&B"
-		`\000026B`:    "&B",
-		`\26B`:        "\u026b",
-		`\72 ed`:      "red",
-		`\72\65\64`:   "red",
-		`re\64`:       "red",
-		`\110000 x`:   "\ufffdx", // above U+10FFFF
-		`\0 x`:        "\ufffdx", // NUL
-		`\d800 x`:     "\ufffdx", // surrogate
-		`\10ffff`:     "\U0010ffff",
-		`\z`:          "z",
-		`\;`:          ";",
-		`a\\b`:        `a\b`,
-		`\5c 62`:      `\62`, // a decoded backslash does not start a new escape
-		`\20 a`:       " a",
-		"\\41\tb":     "Ab", // any single whitespace terminates the escape
-		"\\41\r\nb":   "Ab",
-		`plain`:       "plain",
-		"trailing\\":  "trailing\ufffd",
-		`\1F600`:      "\U0001F600",
-		`\00000041`:   "\ufffd41", // at most six digits are consumed (000000 = NUL -> U+FFFD)
+		`\26 B`:      "&B", // the spec's own example: "\26 B" is "&B"
+		`\000026B`:   "&B",
+		`\26B`:       "\u026b",
+		`\72 ed`:     "red",
+		`\72\65\64`:  "red",
+		`re\64`:      "red",
+		`\110000 x`:  "\ufffdx", // above U+10FFFF
+		`\0 x`:       "\ufffdx", // NUL
+		`\d800 x`:    "\ufffdx", // surrogate
+		`\10ffff`:    "\U0010ffff",
+		`\z`:         "z",
+		`\;`:         ";",
+		`a\\b`:       `a\b`,
+		`\5c 62`:     `\62`, // a decoded backslash does not start a new escape
+		`\20 a`:      " a",
+		"\\41\tb":    "Ab", // any single whitespace terminates the escape
+		"\\41\r\nb":  "Ab",
+		`plain`:      "plain",
+		"trailing\\": "trailing\ufffd",
+		`\1F600`:     "\U0001F600",
+		`\00000041`:  "\ufffd41", // at most six digits are consumed (000000 = NUL -> U+FFFD)
 	}
 	for in, want := range cases {
 		if got := cssDecode(in); got != want {
@@ -66,21 +66,21 @@ func TestParseDeclsExamples(t *testing.T) {
 
 func TestSchemeOfExamples(t *testing.T) {
 	cases := map[string]string{
-		"http://a/":             "http",
-		"JaVaScRiPt:alert(1)":   "javascript",
-		" \x01javascript:x":     "javascript", // leading C0 control or space stripped
-		"java\tscript:x":        "javascript", // tab, LF, CR removed anywhere
-		"java\nscr\ript:x":      "javascript",
-		"//host/x":              "",
-		"/a:b":                  "",
-		"a/b:c":                 "",
-		"1http:x":               "",
-		"x-app+1.2:y":           "x-app+1.2",
-		":x":                    "",
-		"\u00a0javascript:x":    "", // NBSP is not stripped by a browser: this is a relative reference
-		"mailto:a@b":            "mailto",
-		"data:text/html,x":      "data",
-		"":                      "",
+		"http://a/":           "http",
+		"JaVaScRiPt:alert(1)": "javascript",
+		" \x01javascript:x":   "javascript", // leading C0 control or space stripped
+		"java\tscript:x":      "javascript", // tab, LF, CR removed anywhere
+		"java\nscr\ript:x":    "javascript",
+		"//host/x":            "",
+		"/a:b":                "",
+		"a/b:c":               "",
+		"1http:x":             "",
+		"x-app+1.2:y":         "x-app+1.2",
+		":x":                  "",
+		"\u00a0javascript:x":  "", // NBSP is not stripped by a browser: this is a relative reference
+		"mailto:a@b":          "mailto",
+		"data:text/html,x":    "data",
+		"":                    "",
 	}
 	for in, want := range cases {
 		got, abs := schemeOf(in)
